@@ -12,6 +12,9 @@ def sessions(ctx):
             g = gen.SessionGen(ctx.seed * 49979687 + k, nconn=(1, 3), nmsg=(15, 45), junk=0.05, cmds=0.25, core=True, unresolved=0.08,
                                matcher_depth=k % 3, with_init_filter=0.4)
             yield g.session(), {'dialect': ctx.rnd.choice(['old', 'new'])}, 'random-live'
+        from props import c04
+        for k in range(ctx.pick(60, 600)):
+            yield c04.appid_session(ctx.seed * 2750161 + k, live=True), {'dialect': 'new'}, 'selection-by-name-or-application-id'
         yield from sessbase.rich_sessions(ctx, 1000037, ctx.pick(40, 400), cmds=0.25, with_init_filter=0.4)
     return it
 
